@@ -8,11 +8,17 @@
 
   The regenerated facts (GIV.Gen.TsRun) enter through `loop_facts`, `line_facts`, `cli_facts` and
   `skip_honours_failed`; a source change that flips one of them fails there.
+
+  The second layer at the end (lemmas in GIV.Lemmas.TsRunMore) takes the clauses of the property text
+  one by one; its per-command theorems (`builtin_demand` …, `wait_demand` …) are about the concrete
+  builtins of GIV.Model.ScriptCmds (tied to cmd.go by the correspondence run) and use the regenerated
+  facts `execRejectsLoneBgSpec`, `stopSetsStopped`, `skipChecksFailed` (in `builtin_demand`).
 -/
 import GIV.Model.Script
 import GIV.Model.ScriptCmds
 import GIV.Lemmas.TsRun
 import GIV.Lemmas.TsRunCmds
+import GIV.Lemmas.TsRunMore
 
 namespace GIV.C01
 open GIV GIV.TsRun
@@ -553,5 +559,421 @@ theorem table_complete_lookup (p : Cmds.P) (name : Bytes) :
       simp [this, ih, h]
 
 example : Gen.TsRun.scriptCmdNames.length = 24 := by decide
+
+/-! ## second layer: the clauses of the property text, one by one
+
+`later_lines_no_effect` ("no later line has any effect"), `continue_verdict` … ("with ContinueOnError
+every line still runs and the run still fails"), `builtin_demand` … ("behaves as its line demands: it
+succeeds, or with a leading ! it fails in the way that command defines" — for the concrete builtins),
+`wait_demand` … (background commands are charged at the `wait`), `cli_exit_closed` (the standalone
+command), `call_runs_lookup` / `builtin_never_shadowed` (Params.Cmds never replaces a builtin). -/
+
+/-! ### after the first failure -/
+
+/-- Without ContinueOnError nothing after the first failing line has any effect: two scripts that
+agree up to and including that line give the same result in every component (verdict, reported
+line, final state — file system, environment, buffers, background list —, the commands called,
+`ts.lineno`), whatever follows the line in either. -/
+theorem later_lines_no_effect (c : Config σ) (hc : c.continueOnError = false) (s s' : σ) (script script' : Bytes)
+    (pre : List Bytes) (l : Bytes) (post post' : List Bytes)
+    (hsplit : splitScript script = pre ++ l :: post) (hsplit' : splitScript script' = pre ++ l :: post')
+    (hpre : okFold c s pre = some s') (hl : (lineOut c false s' l).out = .fatal) :
+    run c s script = run c s script' := by
+  unfold run
+  rw [hsplit, hsplit', runLines_okFold loop_facts c pre (l :: post) 0 s s' hpre,
+    runLines_okFold loop_facts c pre (l :: post') 0 s s' hpre, runLines_cons loop_facts, runLines_cons loop_facts, hl]
+  simp [hc]
+
+example : run (toy false) 0 (bs "i\nf\ni\ni\nk") = run (toy false) 0 (bs "i\nf\ns") ∧
+    (run (toy false) 0 (bs "i\nf\ni\ni\nk")).state = 1 ∧ (run (toy false) 0 (bs "i\nf\ni\ni\nk")).calls.length = 2 := by
+  refine ⟨later_lines_no_effect (toy false) rfl 0 1 _ _ [bs "i"] (bs "f") [bs "i", bs "i", bs "k"] [bs "s"]
+    (by decide) (by decide) (by decide) (by decide), by decide, by decide⟩
+
+/-! ### ContinueOnError, in full -/
+
+/-- With ContinueOnError the loop executes the lines in order until one ends otherwise than `ok` /
+`fatal` (`contTrace` lists the outcomes), and
+* the verdict is a function of that list: a panic wins, else a T.Skip, else the run fails iff some
+  executed line was fatal (or called T.FailNow), else it passes;
+* the commands called are exactly those of the executed lines, in order, and `ts.lineno` is their number;
+* every line of the script is executed unless the last executed one ended in `stop`, T.Skip,
+  T.FailNow or a panic; all executed lines before the last ended `ok` or `fatal`. -/
+theorem continue_verdict (c : Config σ) (hc : c.continueOnError = true) (s : σ) (script : Bytes) :
+    (run c s script).verdict = traceVerdict false (contTrace c false s (splitScript script)) ∧
+    (run c s script).calls =
+      foldCalls c false s 0 ((splitScript script).take (contTrace c false s (splitScript script)).length) ∧
+    (run c s script).lineno = (contTrace c false s (splitScript script)).length ∧
+    ((contTrace c false s (splitScript script)).length = (splitScript script).length ∨
+      ∃ o, (contTrace c false s (splitScript script)).getLast? = some o ∧ o ≠ .ok ∧ o ≠ .fatal) ∧
+    (∀ o ∈ (contTrace c false s (splitScript script)).dropLast, o = .ok ∨ o = .fatal) := by
+  unfold run
+  obtain ⟨h1, h2, h3⟩ := runLines_contTrace loop_facts c hc (splitScript script) 0 false s
+  exact ⟨h1, h2, by simpa using h3, contTrace_full_or_ended c _ false s, contTrace_init c _ false s⟩
+
+example : contTrace (toy true) false 0 (splitScript (bs "i\nf\ni\nf\ni")) = [.ok, .fatal, .ok, .fatal, .ok] ∧
+    contTrace (toy true) false 0 (splitScript (bs "i\nf\ni\ns\ni")) = [.ok, .fatal, .ok, .stop] ∧
+    (run (toy true) 0 (bs "i\nf\ni\ns\ni")).verdict = .fail ∧
+    contTrace (toy true) false 0 (splitScript (bs "i\nf\nk\ni")) = [.ok, .fatal, .failNow] ∧
+    contTrace (toy true) false 0 (splitScript (bs "i\nk\ni")) = [.ok, .skip] := by decide
+
+/-- If no command calls T.Skip once `ts.failed` is set (true of every builtin: `builtins_honour_failed`),
+then with ContinueOnError the run FAILS exactly when some executed line was fatal or called T.FailNow
+and none panicked; it is SKIPPED exactly when a line called T.Skip and none panicked — and then no
+executed line was fatal; it PASSES exactly when every executed line ended `ok` or `stop`. -/
+theorem continue_fail_iff (c : Config σ) (hc : c.continueOnError = true) (hh : HonoursFailed c) (s : σ) (script : Bytes) :
+    let t := contTrace c false s (splitScript script)
+    ((run c s script).verdict = .fail ↔ (.fatal ∈ t ∨ .failNow ∈ t) ∧ .crash ∉ t) ∧
+    ((run c s script).verdict = .skip ↔ .skip ∈ t ∧ .crash ∉ t) ∧
+    (.skip ∈ t → .fatal ∉ t) ∧
+    ((run c s script).verdict = .pass ↔ ∀ o ∈ t, o = .ok ∨ o = .stop) := by
+  intro t
+  have hv := (continue_verdict c hc s script).1
+  have hsk : Outcome.fatal ∈ t → Outcome.skip ∉ t := contTrace_fatal_no_skip line_facts c hh _ false s
+  rw [hv]
+  show (traceVerdict false t = _ ↔ _) ∧ (traceVerdict false t = _ ↔ _) ∧ _ ∧ (traceVerdict false t = _ ↔ _)
+  refine ⟨?_, ?_, fun h1 h2 => hsk h2 h1, ?_⟩
+  · unfold traceVerdict
+    by_cases h1 : Outcome.crash ∈ t <;> by_cases h2 : Outcome.skip ∈ t <;> by_cases h3 : Outcome.fatal ∈ t <;>
+      by_cases h4 : Outcome.failNow ∈ t <;> simp_all
+    -- skip and failNow cannot both occur: each is the last entry
+    · have hlast := contTrace_init c (splitScript script) false s
+      have : ∀ o ∈ t, o ≠ .ok → o ≠ .fatal → t.getLast? = some o := by
+        intro o ho h5 h6
+        rcases List.eq_nil_or_concat t with hn | ⟨t', x, hx⟩
+        · rw [hn] at ho; simp at ho
+        · have hd : t.dropLast = t' := by rw [hx]; simp
+          rw [hx] at ho
+          simp only [List.concat_eq_append, List.mem_append, List.mem_singleton] at ho
+          rcases ho with ho | ho
+          · have := hlast o (by show o ∈ t.dropLast; rw [hd]; exact ho)
+            rcases this with h | h <;> simp_all
+          · rw [hx, ho]; simp
+      have a := this .skip h2 (by simp) (by simp)
+      have b := this .failNow h4 (by simp) (by simp)
+      rw [a] at b; simp at b
+  · unfold traceVerdict
+    by_cases h1 : Outcome.crash ∈ t <;> by_cases h2 : Outcome.skip ∈ t <;> by_cases h3 : Outcome.fatal ∈ t <;>
+      by_cases h4 : Outcome.failNow ∈ t <;> simp_all
+  · unfold traceVerdict
+    constructor
+    · intro h o ho
+      by_cases h1 : Outcome.crash ∈ t <;> by_cases h2 : Outcome.skip ∈ t <;> by_cases h3 : Outcome.fatal ∈ t <;>
+        by_cases h4 : Outcome.failNow ∈ t <;> simp_all
+      cases o <;> simp_all
+    · intro h
+      have h1 : Outcome.crash ∉ t := fun hm => by have := h _ hm; simp at this
+      have h2 : Outcome.skip ∉ t := fun hm => by have := h _ hm; simp at this
+      have h3 : Outcome.fatal ∉ t := fun hm => by have := h _ hm; simp at this
+      have h4 : Outcome.failNow ∉ t := fun hm => by have := h _ hm; simp at this
+      simp [h1, h2, h3, h4]
+
+example : HonoursFailed (Cmds.config ⟨true, false, false, false, true, true, [], []⟩) := builtins_honour_failed _
+
+/-- For the documented command set (the builtin table as modelled plus the harness's `Params.Cmds`):
+with ContinueOnError the run FAILS exactly when some executed line was fatal (and nothing fell outside
+the modelled fragment) — T.FailNow is only ever called by `skip`, and only after such a line. -/
+theorem continue_fail_iff_builtins (p : Cmds.P) (hc : p.continueOnError = true) (s : Cmds.St) (script : Bytes) :
+    let t := contTrace (Cmds.config p) false s (splitScript script)
+    ((run (Cmds.config p) s script).verdict = .fail ↔ .fatal ∈ t ∧ .crash ∉ t) ∧
+    (.failNow ∈ t → .fatal ∈ t) := by
+  intro t
+  have h := (continue_fail_iff (Cmds.config p) hc (builtins_honour_failed p) s script).1
+  have hfn : Outcome.failNow ∈ t → Outcome.fatal ∈ t :=
+    contTrace_failNow_fatal line_facts _ (Cmds.config_failNow_only_after_failure line_facts p) _ s
+  refine ⟨?_, hfn⟩
+  rw [h]
+  constructor
+  · rintro ⟨h1 | h1, h2⟩
+    · exact ⟨h1, h2⟩
+    · exact ⟨hfn h1, h2⟩
+  · rintro ⟨h1, h2⟩; exact ⟨Or.inl h1, h2⟩
+
+/-- `testscript -continue` on "exists nothing / skip" (the repaired defect): line 1 fatal, `skip` calls
+T.FailNow, the run fails; "exists nothing / stop / exists ." fails too and line 3 is not executed. -/
+example :
+    let p : Cmds.P := ⟨true, false, false, false, false, false, [], []⟩
+    contTrace (Cmds.config p) false Cmds.initSt (splitScript (lit "exists nothing\nskip\n")) = [.fatal, .failNow] ∧
+    (run (Cmds.config p) Cmds.initSt (lit "exists nothing\nskip\n")).verdict = .fail ∧
+    contTrace (Cmds.config p) false Cmds.initSt (splitScript (lit "exists nothing\nstop\nexists .\n")) = [.fatal, .stop] ∧
+    (run (Cmds.config p) Cmds.initSt (lit "exists nothing\nstop\nexists .\n")).verdict = .fail := by
+  decide +kernel
+
+/-- ContinueOnError changes nothing as long as no executed line is fatal: the two runs agree in every
+component ("else pass / skip as without it"). -/
+theorem continue_only_matters_after_failure (c : Config σ) (s : σ) (script : Bytes)
+    (h : .fatal ∉ contTrace c false s (splitScript script)) :
+    run { c with continueOnError := true } s script = run { c with continueOnError := false } s script := by
+  unfold run
+  rw [runLines_continue_irrelevant loop_facts c { c with continueOnError := true } rfl rfl rfl rfl _ 0 false s h,
+    runLines_continue_irrelevant loop_facts c { c with continueOnError := false } rfl rfl rfl rfl _ 0 false s h]
+
+example : Outcome.fatal ∉ contTrace (toy true) false 0 (splitScript (bs "i\n[n] f\ni\nk\nf")) ∧
+    (run (toy false) 0 (bs "i\n[n] f\ni\nk\nf")).verdict = .skip := by decide
+
+/-! ### what each builtin demands -/
+
+/-- For every builtin of the modelled fragment (all of cmd.go's table but chmod, symlink, ttyin,
+unix2dos) the function registered under its name satisfies the demand rule `Cmds.demandTable` lists
+for it:
+* `cd cp env kill mkdir mv rm skip stdin stop unquote wait`: no `!` — a negated use fails the line,
+  state untouched, whatever the arguments (`Cmds.NoBang`); for `cd`, `env`, `stdin`, `stop`, `skip` also
+  the plain use (`Cmds.CdDemand`: the directory exists; `EnvDemand`: never fails; `StdinDemand`: the file
+  can be read; `StopDemand` / `SkipDemand`: at most one argument, else a usage failure);
+* `exists` (`Cmds.ExistsDemand`): every file is judged on its own — `! exists a b` needs NEITHER;
+* `cmp`, `cmpenv` (`Cmds.CmpDemand`): equal texts, resp. different texts under `!`; usage errors and
+  unreadable files fail either way;
+* `stdout`, `stderr`, `ttyout`, `grep` (`Cmds.MatchDemand`, `Cmds.GrepDemand`): a match, resp. no match
+  under `!`; `-count=N` exactly N ≥ 1 matches and no `!`;
+* `exec` (`Cmds.ExecDemand`): exit status 0, resp. ≠ 0 (or not found) under `!`; `exec … &` records the `!`;
+* `wait` (`Cmds.WaitDemand`): every background command ended as its own line demanded. -/
+theorem builtin_demand (p : Cmds.P) :
+    ∀ e ∈ Cmds.demandTable p, ∀ f, (Cmds.config p).builtin e.1 = some f → e.2 f :=
+  Cmds.builtin_demand_table rfl rfl rfl p
+
+/-- the table of `builtin_demand` names every key of `scriptCmds` (regenerated) but four -/
+theorem demand_table_complete (p : Cmds.P) :
+    ∀ n ∈ Gen.TsRun.scriptCmdNames,
+      lit n ∈ (Cmds.demandTable p).map (·.1) ∨ n ∈ ["chmod", "symlink", "ttyin", "unix2dos"] := by
+  rw [Cmds.demandTable_keys]
+  decide +kernel
+
+example (p : Cmds.P) : (Cmds.config p).builtin (lit "exists") = some Cmds.cmdExists ∧
+    (lit "exists", Cmds.ExistsDemand) ∈ Cmds.demandTable p :=
+  ⟨Cmds.builtin_at p (lit "exists") Cmds.cmdExists (by simp [Cmds.builtinTable]), by simp [Cmds.demandTable]⟩
+
+example :
+    (Cmds.cmdCd false Cmds.initSt false [lit "nodir"]).2 = .fatal ∧ (Cmds.cmdCd false Cmds.initSt false [lit ".tmp"]).2 = .ok ∧
+    (Cmds.cmdStop false Cmds.initSt false [lit "m"]).2 = .stop ∧ (Cmds.cmdStop false Cmds.initSt false [lit "m", lit "n"]).2 = .fatal ∧
+    (Cmds.cmdSkip true Cmds.initSt false []).2 = .failNow ∧ (Cmds.cmdStdin false Cmds.initSt false [lit "nofile"]).2 = .fatal := by
+  decide +kernel
+
+/-- The commands without `!`, at the level of a script line: `! cmd args…` ends `fatal`, the state is
+untouched, whatever the arguments, whatever `Params.Cmds` holds. -/
+theorem no_bang_commands (p : Cmds.P) (name : Bytes)
+    (hn : name ∈ ["cd", "cp", "env", "kill", "mkdir", "mv", "rm", "skip", "stdin", "stop", "unquote", "wait"].map lit)
+    (failed : Bool) (s : Cmds.St) (rest : List Bytes) :
+    ∃ f, (Cmds.config p).builtin name = some f ∧ f failed s true rest = (s, .fatal) ∧
+      runArgs (Cmds.config p) failed s ([BANG] :: name :: rest) = ⟨s, .fatal, some (true, name, rest)⟩ := by
+  have key : ∀ f, (Cmds.config p).builtin name = some f → Cmds.NoBang f →
+      ∃ f, (Cmds.config p).builtin name = some f ∧ f failed s true rest = (s, .fatal) ∧
+        runArgs (Cmds.config p) failed s ([BANG] :: name :: rest) = ⟨s, .fatal, some (true, name, rest)⟩ := by
+    intro f hf hnb
+    refine ⟨f, hf, hnb failed s rest, ?_⟩
+    rw [(neg_passed (Cmds.config p) failed s name rest).1 f (lookup_builtin line_facts _ _ _ hf), hnb failed s rest]
+  simp only [List.map_cons, List.map_nil, List.mem_cons, List.mem_nil_iff, or_false] at hn
+  have tbl := builtin_demand p
+  rcases hn with rfl | rfl | rfl | rfl | rfl | rfl | rfl | rfl | rfl | rfl | rfl | rfl
+  · have hf := Cmds.builtin_at p (lit "cd") Cmds.cmdCd (by simp [Cmds.builtinTable])
+    exact key _ hf (tbl (lit "cd", Cmds.CdDemand) (by simp [Cmds.demandTable]) _ hf).1
+  · have hf := Cmds.builtin_at p (lit "cp") Cmds.cmdCp (by simp [Cmds.builtinTable])
+    exact key _ hf (tbl (lit "cp", Cmds.NoBang) (by simp [Cmds.demandTable]) _ hf)
+  · have hf := Cmds.builtin_at p (lit "env") Cmds.cmdEnv (by simp [Cmds.builtinTable])
+    exact key _ hf (tbl (lit "env", Cmds.EnvDemand) (by simp [Cmds.demandTable]) _ hf).1
+  · have hf := Cmds.builtin_at p (lit "kill") Cmds.cmdKill (by simp [Cmds.builtinTable])
+    exact key _ hf (tbl (lit "kill", Cmds.NoBang) (by simp [Cmds.demandTable]) _ hf)
+  · have hf := Cmds.builtin_at p (lit "mkdir") Cmds.cmdMkdir (by simp [Cmds.builtinTable])
+    exact key _ hf (tbl (lit "mkdir", Cmds.NoBang) (by simp [Cmds.demandTable]) _ hf)
+  · have hf := Cmds.builtin_at p (lit "mv") Cmds.cmdMv (by simp [Cmds.builtinTable])
+    exact key _ hf (tbl (lit "mv", Cmds.NoBang) (by simp [Cmds.demandTable]) _ hf)
+  · have hf := Cmds.builtin_at p (lit "rm") Cmds.cmdRm (by simp [Cmds.builtinTable])
+    exact key _ hf (tbl (lit "rm", Cmds.NoBang) (by simp [Cmds.demandTable]) _ hf)
+  · have hf := Cmds.builtin_at p (lit "skip") Cmds.cmdSkip (by simp [Cmds.builtinTable])
+    exact key _ hf (tbl (lit "skip", Cmds.SkipDemand) (by simp [Cmds.demandTable]) _ hf).1
+  · have hf := Cmds.builtin_at p (lit "stdin") Cmds.cmdStdin (by simp [Cmds.builtinTable])
+    exact key _ hf (tbl (lit "stdin", Cmds.StdinDemand) (by simp [Cmds.demandTable]) _ hf).1
+  · have hf := Cmds.builtin_at p (lit "stop") Cmds.cmdStop (by simp [Cmds.builtinTable])
+    exact key _ hf (tbl (lit "stop", Cmds.StopDemand) (by simp [Cmds.demandTable]) _ hf).1
+  · have hf := Cmds.builtin_at p (lit "unquote") Cmds.cmdUnquote (by simp [Cmds.builtinTable])
+    exact key _ hf (tbl (lit "unquote", Cmds.NoBang) (by simp [Cmds.demandTable]) _ hf)
+  · have hf := Cmds.builtin_at p (lit "wait") Cmds.cmdWait (by simp [Cmds.builtinTable])
+    exact key _ hf (tbl (lit "wait", Cmds.WaitDemand) (by simp [Cmds.demandTable]) _ hf).1
+
+example : (runArgs (Cmds.config ⟨false, false, false, false, false, false, [], []⟩) false Cmds.initSt
+    [[BANG], lit "mkdir", lit "d"]).out = .fatal := by decide +kernel
+
+/-- The commands with `!`: the function registered under each name satisfies the rule spelled out in
+its `…Demand` definition (GIV.Lemmas.TsRunMore). -/
+theorem negatable_commands (p : Cmds.P) :
+    (∃ f, (Cmds.config p).builtin (lit "exists") = some f ∧ Cmds.ExistsDemand f) ∧
+    (∃ f, (Cmds.config p).builtin (lit "cmp") = some f ∧ Cmds.CmpDemand p false f) ∧
+    (∃ f, (Cmds.config p).builtin (lit "cmpenv") = some f ∧ Cmds.CmpDemand p true f) ∧
+    (∃ f, (Cmds.config p).builtin (lit "stdout") = some f ∧ Cmds.MatchDemand (·.stdout) f) ∧
+    (∃ f, (Cmds.config p).builtin (lit "stderr") = some f ∧ Cmds.MatchDemand (·.stderr) f) ∧
+    (∃ f, (Cmds.config p).builtin (lit "ttyout") = some f ∧ Cmds.MatchDemand (fun _ => []) f) ∧
+    (∃ f, (Cmds.config p).builtin (lit "grep") = some f ∧ Cmds.GrepDemand f) ∧
+    (∃ f, (Cmds.config p).builtin (lit "exec") = some f ∧ Cmds.ExecDemand f) := by
+  have tbl := builtin_demand p
+  refine ⟨?_, ?_, ?_, ?_, ?_, ?_, ?_, ?_⟩
+  · have hf := Cmds.builtin_at p (lit "exists") Cmds.cmdExists (by simp [Cmds.builtinTable])
+    exact ⟨_, hf, tbl (lit "exists", Cmds.ExistsDemand) (by simp [Cmds.demandTable]) _ hf⟩
+  · have hf := Cmds.builtin_at p (lit "cmp") (Cmds.cmdCmp p) (by simp [Cmds.builtinTable])
+    exact ⟨_, hf, tbl (lit "cmp", Cmds.CmpDemand p false) (by simp [Cmds.demandTable]) _ hf⟩
+  · have hf := Cmds.builtin_at p (lit "cmpenv") (Cmds.cmdCmpenv p) (by simp [Cmds.builtinTable])
+    exact ⟨_, hf, tbl (lit "cmpenv", Cmds.CmpDemand p true) (by simp [Cmds.demandTable]) _ hf⟩
+  · have hf := Cmds.builtin_at p (lit "stdout") Cmds.cmdStdout (by simp [Cmds.builtinTable])
+    exact ⟨_, hf, tbl (lit "stdout", Cmds.MatchDemand (·.stdout)) (by simp [Cmds.demandTable]) _ hf⟩
+  · have hf := Cmds.builtin_at p (lit "stderr") Cmds.cmdStderr (by simp [Cmds.builtinTable])
+    exact ⟨_, hf, tbl (lit "stderr", Cmds.MatchDemand (·.stderr)) (by simp [Cmds.demandTable]) _ hf⟩
+  · have hf := Cmds.builtin_at p (lit "ttyout") Cmds.cmdTtyout (by simp [Cmds.builtinTable])
+    exact ⟨_, hf, tbl (lit "ttyout", Cmds.MatchDemand (fun _ => [])) (by simp [Cmds.demandTable]) _ hf⟩
+  · have hf := Cmds.builtin_at p (lit "grep") Cmds.cmdGrep (by simp [Cmds.builtinTable])
+    exact ⟨_, hf, tbl (lit "grep", Cmds.GrepDemand) (by simp [Cmds.demandTable]) _ hf⟩
+  · have hf := Cmds.builtin_at p (lit "exec") Cmds.cmdExec (by simp [Cmds.builtinTable])
+    exact ⟨_, hf, tbl (lit "exec", Cmds.ExecDemand) (by simp [Cmds.demandTable]) _ hf⟩
+
+/-- `a` exists, `b` does not: `exists a b` fails, `! exists a b` fails too, `! exists b c` is fine;
+`! cmp` of equal files fails; `! stdout x` on "xyx" fails, `stdout -count=2 x` is fine, negated it is a
+usage failure; `! exec vh exit:3` is fine, `exec vh exit:3` fails. -/
+example :
+    let s : Cmds.St := { Cmds.initSt with fs := ⟨[([lit "a"], lit "t"), ([lit "a2"], lit "t")], [[lit ".tmp"]]⟩, stdout := lit "xyx" }
+    let p : Cmds.P := ⟨false, false, false, false, false, false, [], []⟩
+    (Cmds.cmdExists false s false [lit "a", lit "b"]).2 = .fatal ∧
+    (Cmds.cmdExists false s true [lit "a", lit "b"]).2 = .fatal ∧
+    (Cmds.cmdExists false s true [lit "b", lit "c"]).2 = .ok ∧
+    (Cmds.cmdExists false s false [lit "a", lit "a2"]).2 = .ok ∧
+    (Cmds.cmdCmp p false s true [lit "a", lit "a2"]).2 = .fatal ∧
+    (Cmds.cmdCmp p false s false [lit "a", lit "a2"]).2 = .ok ∧
+    (Cmds.cmdCmp p false s true [lit "a", lit "nofile"]).2 = .fatal ∧
+    (Cmds.cmdStdout false s true [lit "x"]).2 = .fatal ∧
+    (Cmds.cmdStdout false s true [lit "q"]).2 = .ok ∧
+    (Cmds.cmdStdout false s false [lit "-count=2", lit "x"]).2 = .ok ∧
+    (Cmds.cmdStdout false s true [lit "-count=2", lit "q"]).2 = .fatal ∧
+    (Cmds.cmdExec false s true [lit "vh", lit "exit:3"]).2 = .ok ∧
+    (Cmds.cmdExec false s false [lit "vh", lit "exit:3"]).2 = .fatal ∧
+    (Cmds.cmdExec false s true [lit "nosuchprog-zz"]).2 = .ok := by decide +kernel
+
+/-! ### background commands are charged at the `wait` -/
+
+/-- `wait`: when every outstanding background command has ended (in a way that does not depend on
+timing), the line ends `ok` exactly when EACH ended as the `exec … &` line that started it demands —
+exit status 0 without `!`, a failure with it; then the outputs joined in order become stdout / stderr
+and `ts.background` is empty.  A single one that ended against its line makes the `wait` line fail
+(nothing assigned, `ts.background` kept).  (Converse of `wait_only_if_background_ok`.) -/
+theorem wait_demand (failed : Bool) (s : Cmds.St) (hs : Cmds.Settled s.bg) :
+    ((Cmds.cmdWait failed s false []).2 = .ok ↔ ∀ b ∈ s.bg, b.result ≠ some b.neg) ∧
+    ((Cmds.cmdWait failed s false []).2 = .fatal ↔ ∃ b ∈ s.bg, b.result = some b.neg) ∧
+    ((Cmds.cmdWait failed s false []).2 = .ok →
+      Cmds.cmdWait failed s false [] =
+        ({ s with stdout := (s.bg.map (·.out)).flatten, stderr := (s.bg.map (·.err)).flatten, bg := [] }, .ok)) ∧
+    ((Cmds.cmdWait failed s false []).2 = .fatal → Cmds.cmdWait failed s false [] = (s, .fatal)) := by
+  rw [Cmds.wait_demand failed s hs]
+  by_cases h : s.bg.all Cmds.bgOk = true
+  · have h' := h
+    simp only [List.all_eq_true, Cmds.bgOk, bne_iff_ne] at h'
+    simp only [h, if_true, true_iff, reduceCtorEq, false_iff, not_exists, not_and, forall_const, false_imp_iff, and_true]
+    exact ⟨h', h'⟩
+  · have h' : ∃ b ∈ s.bg, b.result = some b.neg := by
+      simpa [Cmds.bgOk] using h
+    simp only [h, Bool.false_eq_true, if_false, reduceCtorEq, false_iff, true_iff, false_imp_iff, forall_const, and_true]
+    refine ⟨?_, h'⟩
+    obtain ⟨b, hb, hr⟩ := h'
+    intro hall
+    exact hall b hb hr
+
+/-- `exec vh exit:1 &`, `! exec vh exit:1 &`, `exec vh &` (status 0) and then `wait`. -/
+example :
+    let bg (neg : Bool) (st : Nat) : Cmds.Bg := ⟨[], neg, [], [], st, false, false⟩
+    Cmds.Settled [bg true 1, bg false 0] ∧
+    (Cmds.cmdWait false { Cmds.initSt with bg := [bg true 1, bg false 0] } false []).2 = .ok ∧
+    (Cmds.cmdWait false { Cmds.initSt with bg := [bg true 1, bg false 1] } false []).2 = .fatal := by
+  refine ⟨?_, by decide, by decide⟩
+  intro b hb
+  simp only [List.mem_cons, List.mem_nil_iff, or_false] at hb
+  rcases hb with rfl | rfl <;> decide
+
+/-- `wait name`: stdout / stderr become the named command's whatever its status; the line ends `ok`
+exactly when that command ended as its `exec … &name&` line demanded, and only then is the entry
+removed from `ts.background`; an unknown name fails the line; `! wait` is unsupported. -/
+theorem wait_name_demand (failed : Bool) (s : Cmds.St) (name : Bytes) :
+    (Cmds.findBg s.bg name = none → Cmds.cmdWait failed s false [name] = (s, .fatal)) ∧
+    (∀ b ok, Cmds.findBg s.bg name = some b → b.result = some ok →
+      Cmds.cmdWait failed s false [name] =
+        if ok = b.neg then ({ s with stdout := b.out, stderr := b.err }, .fatal)
+        else ({ s with stdout := b.out, stderr := b.err, bg := Cmds.removeBg s.bg name }, .ok)) ∧
+    (∀ args, Cmds.cmdWait failed s true args = (s, .fatal)) :=
+  ⟨(Cmds.wait_one_demand failed s name).1, (Cmds.wait_one_demand failed s name).2, fun args => Cmds.noBang_wait failed s args⟩
+
+example :
+    let b : Cmds.Bg := ⟨lit "x", true, lit "o", [], 2, false, false⟩
+    Cmds.findBg [b] (lit "x") = some b ∧ b.result = some false ∧
+    (Cmds.cmdWait false { Cmds.initSt with bg := [b] } false [lit "x"]).2 = .ok ∧
+    (Cmds.cmdWait false { Cmds.initSt with bg := [b] } false [lit "x"]).1.bg = [] ∧
+    (Cmds.cmdWait false { Cmds.initSt with bg := [b] } false [lit "x"]).1.stdout = lit "o" := by decide +kernel
+
+/-- `kill` then `wait`: `kill` (no name) signals every background command and ends `ok`; a killed
+command counts as FAILED, so the `wait` that follows ends `ok` exactly when every one of them was
+started under `!` (`! exec … &`), and fails the line as soon as one was not.  (Fragment: helpers that
+block until signalled and have not been signalled yet — anything else is timing-dependent.) -/
+theorem kill_then_wait (failed : Bool) (s : Cmds.St) (h : ∀ b ∈ s.bg, b.blocks = true ∧ b.signalled = false) :
+    Cmds.cmdKill failed s false [] = ({ s with bg := s.bg.map (fun b => { b with signalled := true }) }, .ok) ∧
+    ((Cmds.cmdWait failed (Cmds.cmdKill failed s false []).1 false []).2 = .ok ↔ ∀ b ∈ s.bg, b.neg = true) ∧
+    ((Cmds.cmdWait failed (Cmds.cmdKill failed s false []).1 false []).2 = .fatal ↔ ∃ b ∈ s.bg, b.neg = false) :=
+  ⟨Cmds.kill_all failed s h, (Cmds.kill_then_wait failed s h).1, (Cmds.kill_then_wait failed s h).2⟩
+
+/-- `! exec vh block &` / `kill` / `wait` is fine; `exec vh block &` / `kill` / `wait` fails at the `wait`. -/
+example :
+    let blk (neg : Bool) : Cmds.Bg := ⟨[], neg, [], [], 0, true, false⟩
+    (Cmds.cmdWait false (Cmds.cmdKill false { Cmds.initSt with bg := [blk true] } false []).1 false []).2 = .ok ∧
+    (Cmds.cmdWait false (Cmds.cmdKill false { Cmds.initSt with bg := [blk false] } false []).1 false []).2 = .fatal := by
+  decide
+
+/-- The status check is what makes a `wait` fail: `waitBackground(false)` — the form `run` uses for
+the commands still in the background when the script ends or stops — never calls Fatalf, so a
+background command nobody waited for is not charged to any line. -/
+theorem unchecked_wait_never_fails (interrupted : Bool) (bgs : List Cmds.Bg) (o e : Bytes) :
+    Cmds.waitAll interrupted false bgs o e ≠ some none :=
+  Cmds.waitAll_unchecked interrupted bgs o e
+
+example : Cmds.waitAll true false [⟨[], false, [], [], 1, false, false⟩] [] [] = some (some ([], [])) := by decide
+
+/-! ### the standalone command, in closed form -/
+
+/-- The exit status of `testscript files…` depends only on WHICH verdicts occur: 2 if some script
+panicked, else 1 if some script failed, else 0 — skipped and passed scripts never matter. -/
+theorem cli_exit_closed (vs : List Verdict) :
+    cli vs = (if .crash ∈ vs then 2 else if .fail ∈ vs then 1 else 0) := by
+  unfold cli
+  simpa using cliAux_closed cli_facts vs false
+
+/-- … hence it is invariant under reordering and under repeating or dropping duplicates of verdicts. -/
+theorem cli_exit_set (vs ws : List Verdict) (h : ∀ v, v ∈ vs ↔ v ∈ ws) : cli vs = cli ws := by
+  rw [cli_exit_closed, cli_exit_closed]
+  simp only [h .crash, h .fail]
+
+example : cli [.pass, .fail, .skip, .fail] = 1 ∧ cli [.fail, .pass, .skip] = 1 ∧ cli [.skip, .crash, .fail] = 2 ∧
+    cli [] = 0 := by decide
+
+/-! ### Params.Cmds never replaces a builtin -/
+
+/-- A line that recorded the call `(neg, name, args)` ran exactly the function `lookup` yields for
+`name` — the builtin if there is one, the `Params.Cmds` entry only otherwise — on exactly `neg` and
+`args`; the line's state and outcome are that call's. -/
+theorem call_runs_lookup (c : Config σ) (failed : Bool) (s : σ) (l : Bytes) (neg : Bool) (name : Bytes) (rest : List Bytes)
+    (h : (lineOut c failed s l).call = some (neg, name, rest)) :
+    ∃ f, lookup c name = some f ∧ (lineOut c failed s l).state = (f failed s neg rest).1 ∧
+      (lineOut c failed s l).out = (f failed s neg rest).2 ∧
+      (∀ g, c.builtin name = some g → f = g) := by
+  obtain ⟨f, hf, h1, h2⟩ := lineOut_call line_facts c failed s l neg name rest h
+  refine ⟨f, hf, h1, h2, ?_⟩
+  intro g hg
+  rw [lookup_builtin line_facts c name g hg] at hf
+  exact (Option.some.inj hf).symm
+
+/-- The harness registers a custom command under the builtin name `exists`; it is never reached:
+whatever `Params.Cmds` is switched on, a line that calls `exists` runs `cmdExists`. -/
+theorem builtin_never_shadowed (p : Cmds.P) (failed : Bool) (s : Cmds.St) (l : Bytes) (neg : Bool) (rest : List Bytes)
+    (h : (lineOut (Cmds.config p) failed s l).call = some (neg, lit "exists", rest)) :
+    (Cmds.customTable { p with customCmds := true }).lookup (lit "exists") = some Cmds.cmdShadow ∧
+    (lineOut (Cmds.config p) failed s l).state = (Cmds.cmdExists failed s neg rest).1 ∧
+    (lineOut (Cmds.config p) failed s l).out = (Cmds.cmdExists failed s neg rest).2 := by
+  obtain ⟨f, _, h1, h2, h3⟩ := call_runs_lookup (Cmds.config p) failed s l neg (lit "exists") rest h
+  have := h3 Cmds.cmdExists (Cmds.builtin_at p (lit "exists") Cmds.cmdExists (by simp [Cmds.builtinTable]))
+  subst this
+  refine ⟨?_, h1, h2⟩
+  have hne : ∀ n ∈ ["probe", "failcmd", "put"], (lit "exists" == lit n) = false := by decide +kernel
+  simp [Cmds.customTable, List.lookup, hne]
+
+example : (lineOut (toy false) false 0 (bs "i")).call = some (false, bs "i", []) ∧
+    (lineOut (toy false) false 0 (bs "i")).state = 1 := by decide
 
 end GIV.C01
